@@ -47,7 +47,9 @@ class SqliteImpl(SqlImpl):
         elif val_type == Datetime() and cast.target_type == Date():
             return sqa.type_coerce(sqa.func.date(compiled_val), sqa.Date())
         elif val_type == Date() and cast.target_type == Datetime():
-            return sqa.type_coerce(sqa.func.datetime(compiled_val), sqa.DateTime())
+            # Use the text format in which SQLAlchemy stores datetimes in SQLite, so that
+            # the result compares correctly with datetime columns and literals.
+            return sqa.type_coerce(sqa.func.strftime("%Y-%m-%d %H:%M:%S.000000", compiled_val), sqa.DateTime())
 
         elif val_type.is_float() and cast.target_type == String():
             return sqa.case(
